@@ -19,7 +19,7 @@ PRECISIONS = {
 }
 MACHINEFMT = {'n': '=', 'native': '=', 'b': '>', 'ieee-be': '>', 'l': '<', 'ieee-le': '<', 's': '>', 'ieee-be.l64': '>',
               'a': '<', 'ieee-le.l64': '<'}
-KNOWN_UNMODELLED = {'zeros', 'ones', 'size', 'numel', 'length', 'permute', 'squeeze', 'cast', 'typecast', 'double', 'single',
+KNOWN_UNMODELLED = {'zeros', 'ones', 'size', 'numel', 'length', 'permute', 'squeeze', 'cast', 'typecast', 'single',
                     'int8', 'int16', 'int32', 'int64', 'uint8', 'uint16', 'uint32', 'uint64', 'disp', 'fprintf', 'memmapfile',
                     'swapbytes', 'real', 'imag', 'transpose', 'cat', 'horzcat', 'vertcat', 'isempty', 'end', 'fgetl', 'ftell',
                     'frewind', 'feof', 'ndims', 'fullfile', 'cellfun', 'arrayfun', 'bitshift'}
@@ -284,7 +284,7 @@ def wrap_int(val, dtype):
 class Interp:
     PARSER = Parser
     LANG = 'Matlab'
-    BUILTINS = ('fopen', 'fclose', 'fseek', 'fread', 'reshape', 'complex', 'half.typecast')
+    BUILTINS = ('fopen', 'fclose', 'fseek', 'fread', 'reshape', 'complex', 'half.typecast', 'double')
     UNMODELLED = KNOWN_UNMODELLED
     INT_OVERFLOW = 'saturate'
 
@@ -680,6 +680,13 @@ class Interp:
         out.real = re
         out.imag = im
         return out
+
+    def bi_double(self, *a):
+        if len(a) != 1 or not is_num(a[0]):
+            raise LangError('double(x) takes one numeric array')
+        if a[0].dtype.kind == 'c':
+            return a[0].astype('c16')
+        return a[0].astype('f8')
 
     def bi_half_typecast(self, *a):
         if len(a) != 1 or not is_num(a[0]) or a[0].dtype != np.uint16:
